@@ -309,6 +309,21 @@ CLAIMED["C24"] = (
     "DESIGN.md section 6 C24",
 )
 
+CLAIMED["C27"] = (
+    "SubdomainProjections (cell and face restriction / prolongation), MortarProjections (all eight maps and the "
+    "side-sign matrix) and BoundaryProjection are built by the real code for ordered lists (all orders and sub-"
+    "lists, sampled in the quick tier) of the grids of a 2-fracture md-grid and vector dimensions 1-3, and applied "
+    "to SYMBOLIC vectors: z3 decides for all vectors that restriction after prolongation is the identity, that "
+    "prolongations of all listed grids place their blocks in list order (a permutation of the global vector), "
+    "that sub-list restrictions concatenate blocks in the order asked, that every global mortar projection "
+    "equals the per-interface projection placed at the global face / cell / mortar offsets, and that the "
+    "boundary projection consists of the per-grid boundary projections.",
+    "Exact rational arithmetic on concrete projection matrices; one md-grid with matching mortar grids; grid lists "
+    "enumerated (case split).",
+    "application of the real projection operators to symbolic vectors + SMT (linear arithmetic)",
+    "DESIGN.md section 6 C27",
+)
+
 NOT_APPLICABLE = {
     "C11": "MPFA local systems are inverted in LAPACK/numba kernels on data-dependent block structures; a symbolic inverse of the interaction-region blocks is beyond z3/cvc5 and with concrete matrices nothing quantified remains for a solver.",
     "C13": "MPSA: same obstacle as C11 with 2-3x larger local systems.",
